@@ -96,7 +96,7 @@ func zzRecord(cidLen, nbody int) []byte {
 // authentication fails nothing is delivered, no alert and no error is produced, the peer address is unchanged, and the
 // genuine record with the same sequence number is still accepted afterwards.
 //
-//symgo:entry covers=delivered,auth_failed_dropped,genuine_after_forgery,cid_mismatch_dropped,epoch0_appdata_rejected
+//symgo:entry covers=delivered,auth_failed_dropped,genuine_after_forgery,genuine_cid_after_forgery,cid_mismatch_dropped,epoch0_appdata_rejected
 func zzRxLegacyOneRecord() {
 	suite := &zzRxSuite{authOK: []bool{zzsymBool("authOK"), true}, initDone: true}
 	c := zzRxConn(suite, false)
@@ -153,7 +153,16 @@ func zzRxLegacyOneRecord() {
 		zzsymAssert(!outcome.containsHandshake && outcome.receivedACK == nil, "forgery_no_effect_on_outcome")
 		zzsymAssert(c.rAddr == addr0, "forgery_keeps_peer_address")
 		zzsymAssert(len(c.encryptedPackets) == 0, "forgery_not_queued")
-		// the genuine record bearing the same header is still accepted afterwards
+		// the genuine record bearing the same header is still accepted afterwards (also in the tls12_cid layout:
+		// right CID bytes, inner plaintext = content || application_data, no padding)
+		if isCIDType && cidLen > 0 && nbody >= 1 {
+			zzsymAssume(zzsymEqBytes(rec[11:11+cidLen], localCID))
+			zzsymAssume(rec[len(rec)-1] == byte(protocol.ContentTypeApplicationData))
+			_, err2 := c.handleIncomingPacket(context.Background(), rec, from, nil)
+			zzsymAssert(err2 == nil, "genuine_cid_record_after_forgery_no_error")
+			zzsymAssert(len(c.decrypted) == 1, "genuine_cid_record_after_forgery_delivered")
+			zzsymCover("genuine_cid_after_forgery")
+		}
 		if rec[0] == byte(protocol.ContentTypeApplicationData) {
 			_, err2 := c.handleIncomingPacket(context.Background(), rec, from, nil)
 			zzsymAssert(err2 == nil, "genuine_after_forgery_no_error")
